@@ -121,14 +121,21 @@ def run_shard(shard, out_base):
                     mon.tally("subst")
                     if o.ok:
                         mon.viol("substitution_accepted:" + ("checkdigits" if p < 4 else k), {"base": b, "mutant": t, "pos": p}, "rejected", o.brief())
+                    elif not judge.is_lib_exc(o.exc):
+                        mon.viol(f"escape:{o.exc_name}", {"base": b, "mutant": t}, "library error", o.brief())
+                    if ch in (pool[(pool.index(b[p]) + 2) % len(pool)], pool[(pool.index(b[p]) + 5) % len(pool)]):
+                        # the same typing error with national validation requested: still an error
+                        of = observe(S.IBAN, t, validate_bban=True)
+                        ov = observe(lambda t=t: S.IBAN(t, allow_invalid=True).validate(validate_bban=True))
+                        mon.tally("mutants_with_national_flag")
+                        if of.ok or ov.ok:
+                            mon.viol("substitution_accepted:with_validate_bban", {"base": b, "mutant": t, "pos": p}, "rejected", [of.brief(), ov.brief()])
                     if ch == pool[(pool.index(b[p]) + 1) % len(pool)]:
                         # the same mutant handed over as an unvalidated IBAN object (still a text)
                         ow = observe(lambda t=t: S.IBAN(S.IBAN(t, allow_invalid=True)))
                         mon.tally("mutants_as_objects")
                         if ow.ok:
                             mon.viol("substitution_accepted:passed_as_unvalidated_object", {"base": b, "mutant": t, "pos": p}, "rejected", ow.brief())
-                    elif not judge.is_lib_exc(o.exc):
-                        mon.viol(f"escape:{o.exc_name}", {"base": b, "mutant": t}, "library error", o.brief())
                 if p + 1 < len(b) and b[p] != b[p + 1] and kind(b[p]) == kind(b[p + 1]):
                     t = b[:p] + b[p + 1] + b[p] + b[p + 2 :]
                     o = observe(S.IBAN, t)
